@@ -176,6 +176,81 @@ func pdfSingleFaults(b *base, emit func(desc string, data []byte)) {
 	}
 }
 
+// fixupXRef repairs the cross-reference information of a classic-xref PDF after
+// an edit that changed its length: without it every length-changing fault
+// only ever exercises the xref loader (tabula has no xref recovery), and the
+// code behind the faulted field is never reached. Offsets of objects, of
+// earlier xref sections (/Prev) and startxref that lie behind the edit are
+// shifted by delta. Returns nil when the edit touches the xref data itself.
+func fixupXRef(b *base, data []byte) []byte {
+	d := b.data
+	delta := len(data) - len(d)
+	if delta == 0 {
+		return nil
+	}
+	// common prefix / suffix locate the edit
+	p := 0
+	for p < len(d) && p < len(data) && d[p] == data[p] {
+		p++
+	}
+	q := 0
+	for q < len(d)-p && q < len(data)-p && d[len(d)-1-q] == data[len(data)-1-q] {
+		q++
+	}
+	editEnd := len(d) - q // in the original
+	out := append([]byte{}, data...)
+	shift := func(pos int) int { // position in the original -> position in the edited file
+		if pos >= editEnd {
+			return pos + delta
+		}
+		return pos
+	}
+	fixNum := func(f pdfw.Field, width int) bool {
+		if f.Start < editEnd && f.End > p {
+			return false // the edit hit this field
+		}
+		tok := string(d[f.Start:f.End])
+		loc := intRe.FindStringIndex(tok)
+		if loc == nil {
+			return true
+		}
+		v, err := strconv.Atoi(tok[loc[0]:loc[1]])
+		if err != nil || v < editEnd {
+			return true // points before the edit: unchanged
+		}
+		ns := strconv.Itoa(v + delta)
+		if width > 0 {
+			ns = fmt.Sprintf("%0*d", width, v+delta)
+		}
+		if len(ns) != loc[1]-loc[0] {
+			return false // digit count changes: would shift everything again
+		}
+		copy(out[shift(f.Start)+loc[0]:], ns)
+		return true
+	}
+	for i, f := range b.fields {
+		switch f.Kind {
+		case "xrefentry":
+			if bytes.Contains(d[f.Start:f.End], []byte(" n")) {
+				if !fixNum(f, 10) {
+					return nil
+				}
+			}
+		case "startxref":
+			if !fixNum(f, 0) {
+				return nil
+			}
+		case "name":
+			if string(d[f.Start:f.End]) == "/Prev" && i+1 < len(b.fields) && b.fields[i+1].Kind == "int" {
+				if !fixNum(b.fields[i+1], 0) {
+					return nil
+				}
+			}
+		}
+	}
+	return out
+}
+
 // byteMutations are seed-determined (replayable) random damage.
 func byteMutation(d []byte, r *rand.Rand) ([]byte, string) {
 	x := append([]byte{}, d...)
@@ -387,7 +462,16 @@ func htmlDeepFaults(b *base, emit func(desc string, data, neutral []byte)) {
 
 func pdfBase(c *fw.Ctx, i int) *base {
 	r := c.Rand("base", "pdf", i)
-	g := pdfw.GenDoc(r, pdfw.DocOpts{MinPages: 1, MaxPages: 3, MaxLines: 3, MaxFonts: 2, TreeDepth: 1 + i%3, Inherit: "mixed", NoEmptyPages: true})
+	// font constructions rotate over the bases so that every kind (with and without explicit /Widths) is faulted
+	kinds := [][]string{{"tt-winansi-tounicode", "t1-winansi"}, {"type0-identity", "t1-std"}, {"t1-macroman", "tt-winansi-tounicode"}, {"t1-winansi", "type0-identity"}}[i%4]
+	g := pdfw.GenDoc(r, pdfw.DocOpts{MinPages: 1, MaxPages: 3, MaxLines: 3, MaxFonts: 2, TreeDepth: 1 + i%3, Inherit: "mixed", NoEmptyPages: true, FontKinds: kinds, FontWidths: true, ExactKinds: true})
+	for k := range g.Doc.Fonts { // every simple font carries /FirstChar /LastChar /Widths
+		if g.Doc.Fonts[k].Kind != "type0-identity" && g.Doc.Fonts[k].Widths == nil {
+			for c := 32; c <= 255; c++ {
+				g.Doc.Fonts[k].Widths = append(g.Doc.Fonts[k].Widths, 250+r.Intn(500))
+			}
+		}
+	}
 	lay := pdfw.RandomLayout(r, 1+i%2)
 	// cover the structural variety deterministically across bases
 	lay.XRef = [][]string{{"table"}, {"stream"}, {"table", "stream"}, {"stream", "table"}}[i%4]
@@ -474,7 +558,15 @@ func buildCases(c *fw.Ctx) []*Case {
 		emit := func(desc string, data []byte) { add(b, desc, data) }
 		switch {
 		case b.kind == "pdf":
-			pdfSingleFaults(b, emit)
+			classic := !bytes.Contains(b.data, []byte("/XRef"))
+			pdfSingleFaults(b, func(desc string, data []byte) {
+				add(b, desc, data)
+				if classic && !strings.HasPrefix(desc, "truncate") {
+					if fx := fixupXRef(b, data); fx != nil {
+						add(b, desc+" [xref offsets repaired]", fx)
+					}
+				}
+			})
 		case b.kind == "html":
 			htmlFaults(b, emit)
 			htmlDeepFaults(b, func(desc string, data, neutral []byte) {
